@@ -15,6 +15,8 @@ from checks import c12lib as L
 PID = 'C12'
 FP_FJ = 'terminal_on_tree_path'
 FP_TLIST = 'terminal_list_unattached'
+FP_DISP = 'connector_end_displaced'
+FP_JIN = FP_DISP + ':junction_inside_terminal_shape'
 
 
 class Scene:
@@ -279,6 +281,22 @@ def terminal_on_tree_path(sc, pre):
     return None
 
 
+def junction_in_terminal_shape(sc, t):
+    """classifier junction_inside_terminal_shape, evaluated on the transaction's own output: the position() of a live junction
+    lies inside or on the box of a terminal shape (a later transaction moved the shape over the junction, or the junction was
+    placed there): the junction is no longer in free space"""
+    if not t:
+        return None
+    for jid, j in sorted(t['juncs'].items()):
+        if not j['live']:
+            continue
+        for s in sc.terminals():
+            b = t['boxes'].get(s)
+            if b is not None and inside_box(b, j['pos']):
+                return {'junction': jid, 'position': j['pos'], 'terminal': s, 'shape': b}
+    return None
+
+
 def harness_exe(flavor='exc'):
     return C.build_harness('c12_hyper', ['libavoid'], flavor, extra_flags=(('-DHAVE_H2',) if L.hook_present() else ()))
 
@@ -397,7 +415,10 @@ def judge(sc, o, graphs, answers, pre, stats):
         fp = FP_FJ if onpath else None
         if fp is None and tl and (dangling or resolved):
             fp = FP_TLIST + ':moved'        # an unattached end does not follow its shape: it dangles after the shape moved
-        extra = {'terminal_on_tree_path': onpath} if onpath else {}
+        jin = junction_in_terminal_shape(sc, t)
+        if fp is None and jin:
+            fp = FP_JIN
+        extra = {'terminal_on_tree_path': onpath} if onpath else {'junction_inside_terminal_shape': jin} if jin else {}
         # ---- tree with the same terminals (verified checker)
         if ans[1] != '1':
             stats['tree_bad'] += 1
@@ -489,9 +510,15 @@ def judge_h2(sc, o, onpath, tl, base, stats):
             stats['h2_sections_agree'] += 1
             continue
         on_end = sec.info.get('junction_on_connector_end') or []
+        # a displaced connector end (kind leaf_displaced) is judged on its own (below); next to other findings of the section it is
+        # an accompanying symptom and only tolerated when its own classifier (junction inside a terminal's shape) holds
+        displaced = [p for p in pr if p.get('kind') == 'leaf_displaced']
+        jin = junction_in_terminal_shape(sc, o['tx'][k]) if k < len(o['tx']) else None
+        pr = [p for p in pr if p.get('kind') != 'leaf_displaced'] + displaced
         first = pr[0]
         fp = None
-        if first.get('kind') in H2_FJ_KINDS and all(p.get('kind') in H2_FJ_KINDS + ('smooth_after', 'conn_path') for p in pr):
+        if first.get('kind') in H2_FJ_KINDS and all(p.get('kind') in H2_FJ_KINDS + ('smooth_after', 'conn_path') for p in pr if p not in displaced) \
+                and (not displaced or jin):
             if onpath or interior:
                 fp = FP_FJ      # the recorded classifier of the finding (geometry of the tree before improvement / MTST through a terminal)
             elif on_end and (first.get('kind') != 'op_guard' or first.get('diverging_op', '').startswith('CONTRACT')):
@@ -504,6 +531,12 @@ def judge_h2(sc, o, onpath, tl, base, stats):
                 fp = FP_FJ + ':junction_lands_on_connector_end'
         if fp is None and tl and all(p.get('kind') in ('smooth_after', 'smooth_mtst', 'conn_path') for p in pr):
             fp = FP_TLIST
+        if fp is None and all(p.get('kind') == 'leaf_displaced' for p in pr):
+            # the segment shifting moved a connector end along with a collapsed segment
+            if jin:
+                fp = FP_JIN                         # junction inside the terminal's shape: the shape no longer limits the shift
+            elif tl and all((p.get('leaf_terminal') or ('?',))[0] == 'P' for p in pr):
+                fp = FP_DISP + ':unattached_end'    # the end is a free point (terminal-list registration): nothing limits the shift
         stats['h2_problem_sections'] += 1
         obj = dict(base, what='op-log correspondence (hook H2): ' + first['what'], tx=k, section=sec.kind, section_complete=sec.complete,
                    diverging_op=first.get('diverging_op') or first.get('record'),
@@ -612,7 +645,7 @@ def run(tier):
                 'new/deleted list comparisons; non-trivial = transactions with a routed hyperedge (>= 3 terminals)',
         'exhaustive': False, 'scenes': len(scenes), 'corpus_scenes': ncorpus, 'families': fam, 'counts': stats, 'samples': samples,
         'traces_validated_against_impl': stats['transactions'],
-        'known_classified': {fp: len([b for b in all_bad if b[1] == fp]) for fp in (FP_FJ, FP_TLIST)},
+        'known_classified': {fp: len([b for b in all_bad if b[1] == fp]) for fp in (FP_FJ, FP_TLIST, FP_JIN, FP_DISP + ':unattached_end')},
         'hook_H2': 'present' if h2 else 'hook H2 missing: op-log correspondence skipped',
         'op_log_correspondence': ({
             'sections_replayed': stats['h2_sections'], 'improvement_sections': stats['h2_improve'], 'rerouting_sections': stats['h2_reroute'],
